@@ -247,7 +247,9 @@ impl Interp {
         // a send to a receiver that no longer exists must fail and queues nothing, so a multi-packet payload is
         // safe there (single thread): the failing first packet of a fragmented send is a path of its own
         let dead = !self.model.rx_alive(ch);
-        let len = if dead && !cfg!(miri) && self.rng.chance(350) {
+        let mut big_dead = false;
+        let len = if dead && self.rng.chance(350) {
+            big_dead = true;
             static F1: std::sync::OnceLock<u64> = std::sync::OnceLock::new();
             let f1 = *F1.get_or_init(|| crate::c01::sizes().f1 as u64);
             self.big_dead_sends += 1;
@@ -257,7 +259,10 @@ impl Interp {
         } else {
             self.rng.below(700)
         } as usize;
-        let mut m = PMsg { id, data: Blob(body(id, len)), senders: vec![], receivers: vec![], regions: vec![], fail: FailIf(false) };
+        // under Miri the same program (same random draws, same nominal length in the trace) carries a short body:
+        // the message is never delivered, and a 600 KB body costs the interpreter minutes
+        let data_len = if cfg!(miri) && big_dead { 2048 } else { len };
+        let mut m = PMsg { id, data: Blob(body(id, data_len)), senders: vec![], receivers: vec![], regions: vec![], fail: FailIf(false) };
         let mut mm = MMsg { id, len, senders: vec![], receivers: vec![], regions: vec![] };
         if self.rng.chance(450) {
             // embed sender handles (moved or cloned) of higher channels
